@@ -118,6 +118,10 @@ def handle : Handler
         | some d => "bad-bind " ++ d
         | none => "ok")
     | _ => none
+  | ["accept-exec", _, outcome, _] =>
+    -- measured end to end: the avo-compiled function and the private-storage version of the same
+    -- virtual-register program returned the same results on every argument vector tried
+    some (if outcome == "same" then "ok" else "bad-exec " ++ outcome)
   | "accept-enc" :: rest => do
     -- per instruction: k (orig bound role)*, role 1 = direct register operand, 0 = address register
     let (ins, _) ← listOf (listOf encTok) rest
@@ -129,6 +133,6 @@ def handle : Handler
       | none => "ok")
   | _ => none
 
-def handlers : List (String × Handler) := ["alloc", "accept-alloc", "accept-bind", "accept-enc"].map (·, handle)
+def handlers : List (String × Handler) := ["alloc", "accept-alloc", "accept-bind", "accept-enc", "accept-exec"].map (·, handle)
 
 end Avo.Drv.C01
